@@ -1,4 +1,5 @@
 import Amgcl.Proofs.SolverBiCGStabLMin
+import Amgcl.Proofs.SolverBiCGStabL1
 import Amgcl.Model.Rsqrt
 import Mathlib.Algebra.Order.Field.Rat
 /-!
@@ -178,6 +179,125 @@ theorem bicgstabl_L1_mr_minimises (prm : BiCGStabL.Params K) (hL : prm.L = 1) (s
   subst this
   have := L1_orth sqrt c07 n prm.convex st.w h0 h1
   unfold passY0; rw [hL]; exact this
+
+/-! ## BiCGStab(1) refines BiCGStab -/
+
+/-- **one pass of BiCGStab(1) is one pass of BiCGStab**: `L = 1`, `delta ≤ 0` (no accurate update), the preconditioned
+operator `A'` linear on vectors of length `n` (and `P` itself for right preconditioning: bicgstab.hpp adds `alpha·P p` and
+`omega·P s` to `x` at once, bicgstabl.hpp adds `P X` at label `done`).  States related by `Rel1` (`R[0] = r`, `Rt = rh`,
+`zeta = res`, `U[0] = p − omega·v`, `rho0 = rho1`, same `alpha`, `omega`, `iter`; the `x` bicgstabl would hand back is
+bicgstab's `x`).  IF the pass of the bicgstabl model returns normally (in particular `rho1 ≠ 0`, `sigma ≠ 0`, `omega ≠ 0`:
+bicgstabl throws at once where bicgstab goes on) AND the residual norm after the `alpha` half step is not exactly the
+threshold (`hne`; bicgstab leaves on `norm(s) <= eps`, bicgstabl on `zeta < eps`), THEN the pass of the bicgstab model
+returns normally, and either both went through the `omega` step and the new states are related again, or both left after
+the half step with the same `(iter, residual, x)` and bicgstab's loop guard `res > eps` fails. -/
+theorem bicgstabl_L1_is_bicgstab (prm : BiCGStabL.Params K) (hL : prm.L = 1) (hd : ¬ 0 < prm.delta) (sqrt : K → K) (c07 : K)
+    (A : CRS K) (P : Vec K → Vec K) (n : Nat) (hF : Lin n (Ap prm.pside P A)) (hP : prm.pside = .right → Lin n P)
+    (epsT zeta0 : K) (sL sL' : BiCGStabL.St K) (sB : BiCGStab.St K) (rel : Rel1 prm.pside P n sL sB)
+    (hne : ∀ s1 b, bicgStep prm stdIp sqrt A P epsT 0 { sL with rho0 := (-sL.omega) * sL.rho0 } = .ok (s1, b) →
+      s1.zeta ≠ epsT)
+    (h : BiCGStabL.body prm stdIp sqrt c07 A P epsT zeta0 sL = .ok sL') :
+    ∃ sB', BiCGStab.body prm.pside stdIp sqrt A P epsT sB = .ok sB' ∧
+      ((sL'.done = false ∧ Rel1 prm.pside P n sL' sB') ∨
+       (sL'.done = true ∧ sL'.zeta = sB'.res ∧ sL'.iter = sB'.iter ∧ xOut prm.pside P sL' = sB'.x ∧ ¬ epsT < sB'.res)) := by
+  unfold BiCGStabL.body at h
+  simp only [] at h
+  cases hs : bicgStep prm stdIp sqrt A P epsT 0 { sL with rho0 := (-sL.omega) * sL.rho0 } with
+  | error e =>
+    have : bicgLoop prm stdIp sqrt A P epsT prm.L 0 { sL with rho0 := (-sL.omega) * sL.rho0 } = .error e := by
+      rw [hL]; unfold bicgLoop; rw [hs]
+    rw [this] at h; cases h
+  | ok r =>
+    obtain ⟨s1, b⟩ := r
+    have hloop : bicgLoop prm stdIp sqrt A P epsT prm.L 0 { sL with rho0 := (-sL.omega) * sL.rho0 } = .ok s1 := by
+      rw [hL]; unfold bicgLoop; rw [hs]; cases b <;> simp only [bicgLoop]
+    rw [hloop] at h
+    simp only at h
+    have hz1 := hne s1 b hs
+    have spec := bicgStep0_spec prm stdIp sqrt A P epsT _ s1 b hs
+    dsimp only at spec
+    rw [rel.r, rel.rh] at spec
+    have hnp := newP_eq prm.pside P n sL sB rel (stdIp sB.w.r sB.w.rh)
+    rw [rel.r] at hnp
+    have hpL : (axpby 1 sB.w.r (-(sL.alpha * (stdIp sB.w.r sB.w.rh / (-sL.omega * sL.rho0)))) (sL.w.U.get 0)).size = n := by
+      rw [axpby_size]; exact rel.szr
+    generalize axpby 1 sB.w.r (-(sL.alpha * (stdIp sB.w.r sB.w.rh / (-sL.omega * sL.rho0)))) (sL.w.U.get 0) = pL
+      at spec hnp hpL
+    obtain ⟨q1, q2, q3, q4, q5, q6, q7, q8, q9, q10, q11, q12, q13, q14, q15⟩ := spec
+    obtain ⟨e1, e2, e3, e4, e5, e6, e7, e8⟩ := half_eq prm.pside sqrt A P n hF sB pL rel.szr
+    try dsimp only at e1 e2 e3 e4 e5 e6 e7 e8
+    have hvsz : (Ap prm.pside P A pL).size = n := hF.size pL
+    generalize hvdef : Ap prm.pside P A pL = vL at *
+    generalize hadef : stdIp sB.w.r sB.w.rh / stdIp vL sB.w.rh = al at *
+    have hsvsz : (axpby (-al) vL 1 sB.w.r).size = n := by rw [axpby_size]; exact hvsz
+    generalize hsdef : axpby (-al) vL 1 sB.w.r = sv at *
+    have hx1 : xOut prm.pside P s1 = xAdd prm.pside P al pL sB.x := by
+      rw [← rel.x]; exact xOut_axpby prm.pside P n hP sL s1 al pL hpL rel.szX rel.szx q7 q12
+    have hbody : BiCGStab.body prm.pside stdIp sqrt A P epsT sB =
+        (if epsT < (BiCGStab.half prm.pside stdIp sqrt A P sB pL).res then
+          BiCGStab.full prm.pside stdIp sqrt A P sB (BiCGStab.half prm.pside stdIp sqrt A P sB pL)
+        else .ok { first := false, iter := sB.iter + 1, rho1 := (BiCGStab.half prm.pside stdIp sqrt A P sB pL).rho1,
+                   alpha := (BiCGStab.half prm.pside stdIp sqrt A P sB pL).alpha, omega := sB.omega,
+                   res := (BiCGStab.half prm.pside stdIp sqrt A P sB pL).res,
+                   x := (BiCGStab.half prm.pside stdIp sqrt A P sB pL).x,
+                   w := ⟨sB.w.r, pL, (BiCGStab.half prm.pside stdIp sqrt A P sB pL).v,
+                     (BiCGStab.half prm.pside stdIp sqrt A P sB pL).s, sB.w.t, sB.w.rh,
+                     (BiCGStab.half prm.pside stdIp sqrt A P sB pL).T⟩ }) := by
+      unfold BiCGStab.body
+      simp only [hnp]
+    generalize BiCGStab.half prm.pside stdIp sqrt A P sB pL = hh at *
+    cases b with
+    | true =>
+      obtain ⟨d1, d2, d3⟩ := q14 rfl
+      rw [d1] at h
+      simp only [if_true] at h
+      cases h
+      have hnlt : ¬ epsT < hh.res := by rw [e4, ← q10]; exact lt_asymm d3
+      refine ⟨_, by rw [hbody, if_neg hnlt], Or.inr ⟨d1, by rw [q10, e4], by rw [d2]; show sL.iter + 1 = sB.iter + 1; rw [rel.iter],
+        by rw [hx1, e5], hnlt⟩⟩
+    | false =>
+      obtain ⟨d1, d2, d3⟩ := q15 rfl
+      have hnd : s1.done = false := by rw [d1]; exact rel.notdone
+      rw [hnd] at h
+      simp only [Bool.false_eq_true, if_false] at h
+      have hlt : epsT < hh.res := by rw [e4, ← q10]; exact lt_of_le_of_ne (not_lt.mp d3) (Ne.symm hz1)
+      have hR0 : (s1.w.R.get 0).size = n := by rw [q5]; exact hsvsz
+      have hR1 : (s1.w.R.get 1).size = n := by rw [q6]; exact hF.size _
+      have hX1 : s1.w.X.size = n := by rw [q7, axpby_size]; exact hpL
+      obtain ⟨o1, o2, o3, o4, o5, o6⟩ := bicgstabl_L1_poly_is_bicgstab_omega_step prm hL hd sqrt c07 A P zeta0 n s1 sL'
+        sB.w.r hR0 hR1 hX1 h
+      try dsimp only at o1 o2 o3
+      obtain ⟨f1, f2, f3, f4⟩ := polyPart_frame0 prm stdIp sqrt c07 A P zeta0 s1 sL' hd h
+      obtain ⟨_, z2⟩ := polyPart_zeta prm stdIp sqrt c07 A P zeta0 s1 sL' h
+      obtain ⟨_, _, u0, _⟩ := z2 hd
+      have hit := polyPart_iter prm stdIp sqrt c07 A P zeta0 s1 sL' h
+      have hY1 := bicgstabl_L1_omega prm hL sqrt c07 n s1 hR0 hR1
+      rw [q5, q6] at o1 o2 o3 hY1
+      generalize homdef : stdIp sv (Ap prm.pside P A sv) / stdIp (Ap prm.pside P A sv) (Ap prm.pside P A sv) = om at *
+      have hom : om ≠ 0 := by rw [← o1]; exact f4
+      obtain ⟨T', hfull⟩ := full_eq prm.pside sqrt A P sB hh (by (try dsimp only); rw [e3, homdef]; exact hom)
+      try dsimp only at hfull
+      rw [e3, homdef] at hfull
+      have hx2 : xOut prm.pside P sL' = xAdd prm.pside P om sv (xOut prm.pside P s1) :=
+        xOut_axpby prm.pside P n hP s1 sL' om sv hsvsz hX1 (by rw [q12]; exact rel.szx) o3 o5
+      have hUs : ∀ i, i ≤ prm.L → (s1.w.U.get i).size = n := by
+        intro i hi
+        have : i = 0 ∨ i = 1 := by omega
+        rcases this with rfl | rfl
+        · rw [q3]; exact hpL
+        · rw [q4]; exact hvsz
+      obtain ⟨p1, p2⟩ := polyV0_entries prm.L (passY0 prm stdIp sqrt c07 s1) s1.w.U hUs
+      refine ⟨_, by rw [hbody, if_pos hlt]; exact hfull, Or.inl ⟨by rw [hit.2]; exact hnd, ?_⟩⟩
+      refine ⟨o2, by rw [f3]; exact q11, by rw [o4, o2], by rw [o6, d2]; show sL.iter + 1 = sB.iter + 1; rw [rel.iter],
+        by rw [hit.2]; exact hnd, by rw [hx2, hx1, e5], ?_, ?_, by rw [o5, q12]; exact rel.szx, by rw [u0]; exact p1, ?_⟩
+      · show (axpbypcz 1 sv (-om) (Ap prm.pside P A sv) 0 sB.w.r).size = n
+        rw [axpbypcz_size]; exact hsvsz
+      · rw [o3, axpby_size]; exact hsvsz
+      · refine Or.inr ⟨rfl, by rw [f1, q8]; exact e2.symm, o1, by rw [f2, q9]; exact e7.symm, hom, by rw [e7]; exact q1,
+          by rw [e6]; exact hpL, by rw [e1]; exact hvsz, ?_⟩
+        intro i hi
+        show (sL'.w.U.get 0).getD i 0 = hh.p.getD i 0 - om * hh.v.getD i 0
+        rw [u0, p2 i hi, hL, Finset.sum_range_one, hY1, q3, q4, e6, e1]
 
 /-! ## non-vacuity over `ℚ` with the executable root `rsqrt` -/
 section examples
